@@ -470,6 +470,10 @@ def term_features(term):
             return
         h = t[0]
         d = depth
+        if isinstance(h, list):
+            for x in t:
+                walk(x, depth)
+            return
         if h in ('sel', 'val', 'set', 'ins', 'upd', 'del'):
             f['queries'] += 1
             d = depth + 1
@@ -525,7 +529,7 @@ def term_features(term):
 
 _SQL_TOK = re.compile(r'''
     (?P<ws>\s+)
-  | (?P<cmt>/\*.*?\*/)
+  | (?P<cmt>/\*.*?\*/|--[^\n]*)
   | (?P<estr>[eE]'(?:[^'\\]|\\.|'')*')
   | (?P<bstr>[xXbB]'[^']*')
   | (?P<str>'(?:[^']|'')*')
@@ -838,6 +842,9 @@ class Abstractor:
             return
         if isinstance(node, pg.ResTarget):
             return self.ex(node.val, out)
+        if isinstance(node, pg.InsertTarget):
+            out.append(['c', 0, self.nm(node.name)])
+            return
         if isinstance(node, pg.Expr):
             self.ex(node.lexpr, out)
             self.ex(node.rexpr, out)
@@ -1057,11 +1064,17 @@ class Abstractor:
                     if rv.with_ordinality:
                         cols = cols + ['ordinality']
             if a is None or not a.aliasname:
-                raise Unsupported('function in FROM without an alias')
-            self.sk.append('a:' + a.aliasname)
-            if a.colnames:
-                self.sk.append('ac:' + ','.join(a.colnames))
-            return ['fn', al, self.nm(a.aliasname), '*' if cols is None else [self.nm(c) for c in cols]]
+                # PostgreSQL: the function's name is the range variable's name
+                if len(rv.functions) == 1 and isinstance(rv.functions[0], pg.FuncCall) and not rv.is_rowsfrom:
+                    refname = rv.functions[0].name[-1]
+                else:
+                    raise Unsupported('ROWS FROM / non-call function in FROM without an alias')
+            else:
+                refname = a.aliasname
+                self.sk.append('a:' + a.aliasname)
+                if a.colnames:
+                    self.sk.append('ac:' + ','.join(a.colnames))
+            return ['fn', al, self.nm(refname), '*' if cols is None else [self.nm(c) for c in cols]]
         if isinstance(rv, pg.JoinExpr):
             cur = self.fitem(rv.larg)
             for j in rv.joins:
@@ -1209,6 +1222,8 @@ class Abstractor:
             w = self.with_(q)
             rel, alias = self.dml_target(q.relation)
             cols = [self.nm(c.name) for c in q.cols or ()]
+            if q.cols and q.relation.alias and q.relation.alias.aliasname:
+                self.sk.append('ac:' + ','.join(c.name for c in q.cols))   # "AS alias (cols)" in the text
             src = '-'
             if q.select_stmt is not None:
                 s = q.select_stmt
@@ -1296,9 +1311,51 @@ class Abstractor:
 # compile + observe
 # ---------------------------------------------------------------------------------------------
 
+# ---------------------------------------------------------------------------------------------
+# "mode D": deterministic object-identity hashes and deterministic fresh UUIDs (harness process only)
+# ---------------------------------------------------------------------------------------------
+# Used to attribute a difference between two compilations of the same statement to one mechanism:
+# iteration over Python sets / frozensets whose elements hash by object identity (edb.common.ast.AST
+# nodes: IR statements, sets, pointer refs, pgast nodes) or by freshly generated random UUIDs
+# (irast.TypeRef hashes its id; derived types get uuid1mc() ids).  In mode D the hash of an AST node is
+# the number of nodes hashed before it since the last reset, and uuid1mc()/uuid4() count up.
+
+_DET = {'h': {}, 'u': 0, 'on': False}
+
+
+def det_install():
+    from edb.common.ast import base as astbase
+    from edb.common import uuidgen
+    import uuid as _uuid
+
+    def det_hash(self):
+        k = id(self)
+        e = _DET['h'].get(k)
+        if e is None or e[1] is not self:
+            e = (len(_DET['h']) + 1, self)      # keeps the node alive: no id reuse before the reset
+            _DET['h'][k] = e
+        return e[0]
+
+    def det_uuid():
+        _DET['u'] += 1
+        return uuidgen.UUID(_uuid.UUID(int=(0x1E7C13 << 104) | (1 << 76) | (2 << 62) | _DET['u']).bytes)
+    astbase.AST.__hash__ = det_hash
+    uuidgen.uuid1mc = det_uuid
+    uuidgen.uuid4 = det_uuid
+    _DET['on'] = True
+
+
+def det_reset():
+    if _DET['on']:
+        _DET['h'].clear()
+        _DET['u'] = 0
+
+
 class Worker:
     def __init__(self, repo, spec):
         self.rt = setup(repo)
+        if os.environ.get('C13_DET') == '1':
+            det_install()
         self.spec = spec
         self.cache = spec['cache']
         self.schemas = {}
@@ -1314,6 +1371,7 @@ class Worker:
     # -- mode n / j
     def compile_tree(self, schema, text, fmt):
         rt = self.rt
+        det_reset()
         qltree = rt['qlparser'].parse_query(text)
         ir = rt['qlcompiler'].compile_ast_to_ir(
             qltree, schema,
@@ -1335,31 +1393,18 @@ class Worker:
                          bool(getattr(ip, 'sub_params', None)) if ip is not None else False])
         return rows
 
-    def run_tree(self, sid, fmt, text):
-        schema, catalog = self.schema(sid)
-        res, sql, ir, params = self.compile_tree(schema, text, fmt)
-        rows = self.argmap_rows(res.argmap, params)
-        out = {'st': 'ok', 'mon': []}
-        # determinism in-process
-        res2, sql2, ir2, params2 = self.compile_tree(schema, text, fmt)
-        rows2 = self.argmap_rows(res2.argmap, params2)
-        if sql != sql2 or rows != rows2:
-            out['mon'].append('nondet-inprocess')
-            out['nondet'] = first_diff(sql, sql2) if sql != sql2 else 'argmap'
+    def observe(self, out, ast, rows, sql, catalog):
+        """abstraction + all monitors that need the tree, for one emitted statement"""
         ab = Abstractor(self.rt, catalog)
         try:
-            term = ab.query(res.ast, paren=False)
+            term = ab.query(ast, paren=False)
         except Unsupported as e:
             out['st'] = 'unsup'
             out['err'] = str(e)
-            out['sql'] = sql[:400]
-            return out
+            return None
         out['term'] = sx_str(term)
         out['names'] = ab.names
         out['argmap'] = rows
-        out['sqllen'] = len(sql)
-        out['digest'] = hashlib.sha256(json.dumps([sql, rows]).encode()).hexdigest()[:24]
-        # text skeleton
         try:
             tsk = text_skeleton(sql)
         except ValueError as e:
@@ -1372,10 +1417,29 @@ class Worker:
         if r[0] != 'OK':
             n = ab.names
             out['mon'].append(f'pyref:{r[1]}:{n[r[2]] if r[2] else ""}:{n[r[3]] if r[3] else ""}')
+            out['pyref'] = ['ERR', r[1], r[2], r[3]]
         else:
             out['resolved'] = r[1]
+            out['pyref'] = ['OK']
         out['feat'] = term_features(term)
         out['feat']['relstats'] = ab.relstats
+        return term
+
+    def run_tree(self, sid, fmt, text):
+        schema, catalog = self.schema(sid)
+        res, sql, ir, params = self.compile_tree(schema, text, fmt)
+        rows = self.argmap_rows(res.argmap, params)
+        out = {'st': 'ok', 'mon': [], 'sql': sql}
+        # determinism in-process
+        res2, sql2, ir2, params2 = self.compile_tree(schema, text, fmt)
+        rows2 = self.argmap_rows(res2.argmap, params2)
+        if sql != sql2 or rows != rows2:
+            out['mon'].append('nondet-inprocess')
+            out['sql2'] = sql2
+            out['argmap2'] = rows2
+        self.observe(out, res.ast, rows, sql, catalog)
+        out['sqllen'] = len(sql)
+        out['digest'] = hashlib.sha256(json.dumps([sql, rows]).encode()).hexdigest()[:24]
         return out
 
     @staticmethod
@@ -1385,7 +1449,8 @@ class Worker:
         idx = sorted(r[1] for r in phys)
         if idx != list(range(1, len(idx) + 1)) or used != set(idx):
             out['mon'].append('params-text')
-            out['params_text'] = {'used': sorted(used), 'argmap': idx}
+            out['params_text'] = {'used': sorted(used), 'argmap': idx,
+                                  'present_flags': sorted(r[1] for r in rows if r[0].endswith('present__'))}
         logical = [r[2] for r in rows if r[2] != -1 and not r[4]]
         if logical != list(range(1, len(logical) + 1)):
             out['mon'].append('params-logical')
@@ -1399,6 +1464,7 @@ class Worker:
         return self.server
 
     def compile_server(self, schema, text):
+        from edb import edgeql
         from edb.server import compiler as edbcompiler
         from edb.server.compiler import compiler as cmod
         comp = self.server_compiler()
@@ -1406,51 +1472,92 @@ class Worker:
             compiler_state=comp.state, user_schema=schema,
             modaliases={None: 'default'}, output_format=edbcompiler.OutputFormat.BINARY,
             protocol_version=(3, 0), json_parameters=False, expected_cardinality_one=False)
-        units = edbcompiler.compile_edgeql_script(ctx, text)
-        return units
+        captured = []
+        det_reset()
+        orig = cmod.pg_compiler.compile_ir_to_sql_tree
+
+        def wrapper(ir, **kw):
+            r = orig(ir, **kw)
+            params = list(getattr(ir, 'params', ()) or ()) + list(getattr(ir, 'globals', ()) or ())
+            captured.append((r, params))
+            return r
+        cmod.pg_compiler.compile_ir_to_sql_tree = wrapper
+        try:
+            src = edgeql.NormalizedSource.from_string(text)
+            grp = cmod.compile(ctx=ctx, source=src)
+        finally:
+            cmod.pg_compiler.compile_ir_to_sql_tree = orig
+        return list(grp), captured
+
+    @staticmethod
+    def unit_obs(u):
+        sql = u.sql if isinstance(u.sql, (bytes, str)) else b';'.join(u.sql)
+        if isinstance(sql, bytes):
+            sql = sql.decode('utf-8')
+        # the leading "-- {json}" line carries the query text and a cache id, not SQL
+        body = '\n'.join(l for l in sql.split('\n') if not l.startswith('-- '))
+        return {
+            'sql': body,
+            'in_type_args': [[p.name, bool(p.required), bool(getattr(p, 'array_type_id', None)),
+                              len(p.sub_params[0]) if getattr(p, 'sub_params', None) else 0]
+                             for p in (u.in_type_args or ())],
+            'in_type_id': u.in_type_id.hex() if isinstance(u.in_type_id, bytes) else str(u.in_type_id),
+            'in_type_data': (u.in_type_data or b'').hex(),
+            'out_type_id': u.out_type_id.hex() if isinstance(u.out_type_id, bytes) else str(u.out_type_id),
+            'out_type_data': (u.out_type_data or b'').hex(),
+            'globals': [list(g) if isinstance(g, tuple) else g for g in (u.globals or ())],
+            'real_count': int(getattr(u, 'in_type_args_real_count', 0) or 0),
+            'cardinality': str(u.cardinality), 'capabilities': int(u.capabilities),
+        }
 
     def run_server(self, sid, text):
         schema, catalog = self.schema(sid)
         out = {'st': 'ok', 'mon': []}
-        obs = []
-        for rep in range(2):
-            units = self.compile_server(schema, text)
-            o = []
-            for u in units:
-                sql = u.sql if isinstance(u.sql, (bytes, str)) else b';'.join(u.sql)
-                if isinstance(sql, bytes):
-                    sql = sql.decode('utf-8')
-                o.append({
-                    'sql': sql,
-                    'in_type_args': [[p.name, bool(p.required), bool(getattr(p, 'array_type_id', None))]
-                                     for p in (u.in_type_args or ())],
-                    'in_type_id': u.in_type_id.hex() if isinstance(u.in_type_id, bytes) else str(u.in_type_id),
-                    'in_type_data': (u.in_type_data or b'').hex(),
-                    'out_type_id': u.out_type_id.hex() if isinstance(u.out_type_id, bytes) else str(u.out_type_id),
-                    'out_type_data': (u.out_type_data or b'').hex(),
-                    'globals': [list(g) if isinstance(g, tuple) else g for g in (u.globals or ())],
-                    'cardinality': str(u.cardinality), 'capabilities': int(u.capabilities),
-                    'extra_counts': list(getattr(u, 'extra_counts', ()) or ()),
-                })
-            obs.append(o)
-        if obs[0] != obs[1]:
+        units, captured = self.compile_server(schema, text)
+        o = [self.unit_obs(u) for u in units]
+        units2, captured2 = self.compile_server(schema, text)
+        o2 = [self.unit_obs(u) for u in units2]
+        if o != o2:
             out['mon'].append('nondet-inprocess')
-            out['nondet'] = 'server units differ'
-        o = obs[0]
+            out['sql2'] = '\n;\n'.join(u['sql'] for u in o2)
+            out['desc_differs'] = [k for a, b in zip(o, o2) for k in a if k != 'sql' and a[k] != b.get(k)]
         out['units'] = len(o)
+        out['sql'] = '\n;\n'.join(u['sql'] for u in o)
+        out['desc'] = [{k: v for k, v in u.items() if k != 'sql'} for u in o]
         out['digest'] = hashlib.sha256(json.dumps(o, sort_keys=True).encode()).hexdigest()[:24]
         np = 0
         for u in o:
             used = sorted(set(text_params(u['sql'])))
-            nargs = len(u['in_type_args'])
+            # what edb/server/protocol/args_ser.pyx::recode_bind_args sends in Bind:
+            # in_type_args_real_count (extracted constants are entries of in_type_args here) + globals
+            # (the value, and a "present" flag for globals with a default)
+            nargs = u['real_count']
             nglob = 0
+            present = []
             for g in u['globals']:
-                nglob += 2 if (isinstance(g, list) and len(g) > 1 and g[1]) else 1
+                nglob += 1
+                if isinstance(g, list) and len(g) > 1 and g[1]:
+                    nglob += 1
+                    present.append(nargs + nglob)
             k = nargs + nglob
             if used != list(range(1, k + 1)):
                 out['mon'].append('params-unit')
-                out['params_unit'] = {'used': used, 'in_type_args': u['in_type_args'], 'globals': u['globals']}
+                out['params_unit'] = {'used': used, 'bind_count': k, 'present_flags': present,
+                                      'in_type_args': u['in_type_args'], 'globals': u['globals']}
             np = max(np, k)
+        # the tree of the (single) statement, as the server compiled it
+        if len(o) == 1 and len(captured) == 1:
+            res, params = captured[0]
+            rows = self.argmap_rows(res.argmap, params)
+            sub = {'st': 'ok', 'mon': []}
+            self.observe(sub, res.ast, rows, o[0]['sql'], catalog)
+            if sub['st'] != 'ok':
+                out['st'] = sub['st']
+                out['err'] = sub.get('err')
+            for k in ('term', 'names', 'argmap', 'skdiff', 'params_text', 'resolved', 'pyref', 'feat'):
+                if k in sub:
+                    out[k] = sub[k]
+            out['mon'] += sub['mon']
         out['np'] = np
         out['sqllen'] = sum(len(u['sql']) for u in o)
         return out
@@ -1500,6 +1607,61 @@ def sk_diff(a, b):
     return {'at': i, 'tree': a[max(0, i - 3):i + 4], 'text': b[max(0, i - 3):i + 4], 'len_tree': len(a), 'len_text': len(b)}
 
 
+def child_main(repo, specpath):
+    spec = json.load(open(specpath))
+    w = Worker(repo, spec)
+    for line in sys.stdin:
+        line = line.rstrip('\n')
+        if not line:
+            print(json.dumps({'st': 'bad-line'}), flush=True)
+            continue
+        print(json.dumps(w.run_line(line)), flush=True)
+
+
+def supervise(repo, specpath):
+    """one child worker at a time; a case that exceeds the time limit kills the child (its interpreter
+    state is not trusted afterwards) and the next case starts a fresh one"""
+    import select
+    import subprocess
+    limit = float(os.environ.get('C13_CASE_TIMEOUT', '90'))
+    child = None
+    fresh = True
+
+    def spawn():
+        return subprocess.Popen([sys.executable, os.path.abspath(__file__), repo, '--child', specpath],
+                                stdin=subprocess.PIPE, stdout=subprocess.PIPE, text=True, bufsize=1)
+    for line in sys.stdin:
+        line = line.rstrip('\n')
+        if child is None:
+            child = spawn()
+            fresh = True
+        try:
+            child.stdin.write(line + '\n')
+            child.stdin.flush()
+            r, _, _ = select.select([child.stdout], [], [], limit + (240 if fresh else 0))
+            out = child.stdout.readline() if r else None
+        except (BrokenPipeError, OSError):
+            out = ''
+        fresh = False
+        if out is None:
+            child.kill()
+            child.wait()
+            child = None
+            print(json.dumps({'st': 'timeout', 'err': f'no answer within {limit:.0f}s'}))
+        elif out == '':
+            rc = child.poll()
+            child.kill()
+            child.wait()
+            child = None
+            print(json.dumps({'st': 'crash', 'err': f'worker process died (rc={rc})'}))
+        else:
+            sys.stdout.write(out if out.endswith('\n') else out + '\n')
+    if child is not None:
+        child.stdin.close()
+        child.wait()
+    sys.stdout.flush()
+
+
 def main():
     repo = sys.argv[1] if len(sys.argv) > 1 else '/repo'
     if len(sys.argv) > 3 and sys.argv[2] == '--build-schemas':
@@ -1511,15 +1673,9 @@ def main():
             rt['vrt'].reflection_schema()
         print('ok')
         return
-    spec = json.load(open(sys.argv[2]))
-    w = Worker(repo, spec)
-    for line in sys.stdin:
-        line = line.rstrip('\n')
-        if not line:
-            print(json.dumps({'st': 'bad-line'}))
-            continue
-        print(json.dumps(w.run_line(line)), flush=False)
-    sys.stdout.flush()
+    if len(sys.argv) > 3 and sys.argv[2] == '--child':
+        return child_main(repo, sys.argv[3])
+    supervise(repo, sys.argv[2])
 
 
 if __name__ == '__main__':
